@@ -1,6 +1,7 @@
 SPECIFICATION TraceSpec
 CONSTANTS PromptRunner = FALSE
           DeferredStoreCancel = TRUE
+          TimeoutCancelInStore = TRUE
 CONSTRAINT HighWater
 POSTCONDITION TraceAccepted
 VIEW TraceView
